@@ -63,8 +63,10 @@ def run(tier):
     allh = [c["h"] for c in cex] + hists + cov
     log(f"[{PID}] design level: {mc.distinct} distinct states, violated={mc.violated}; {len(hists)} enumerated + "
         f"{len(cov)} cover histories")
+    if tier == "thorough" and len(allh) > 100000:
+        allh = [c["h"] for c in cex] + rnd.sample(allh, 100000)        # (bounded: the run has to fit into time and memory)
     plans = [stream.Plan("rs/plain", allh, [], None, skin=SKINS["plain"])]
-    per = 2500 if tier == "quick" else len(cov)
+    per = 2500 if tier == "quick" else 12000
     for name, skin in SKINS.items():
         if name == "plain":
             continue
@@ -77,8 +79,7 @@ def run(tier):
     # a configured --file-transformation (one that happens to change none of these names): labels, mode and binary notes stay
     plans.append(stream.Plan("rs/file-transformation", rnd.sample(covmode, min(1500 if tier == "quick" else len(covmode), len(covmode))),
                              ["--file-transformation", "s,NOSUCHNAMEQQ,x,"], None, skin={}))
-    res = stream.execute_plans(plans)
-    failed, n = stream.validate_runs([x[4] for x in res])
+    failed, n, res, drift = stream.execute_and_validate(plans)
     log(f"[{PID}] replayed {n} runs, {len(failed)} rejected by Obs_Stream")
     for f in failed:
         p, h, data, r, ev, rows = res[f["run"]]
@@ -90,7 +91,7 @@ def run(tier):
                 f"history [{stream.shape(h)[:200]}] under {p.name}: wanted row {f['i']} ({f['wt']}) but output row {f['j']} is {f['gt']}")
         V.violation(sig, what,
                     {"history": h, "config": p.name, "run": r.to_json(), "failure": f})
-    V.drift = stream.drift_report(res)
+    V.drift = drift
     rc = V.finish()
     core.write_evidence(PID, tier, "model_checking", {
         "states": mc.distinct, "transitions": mc.generated, "depth": mc.depth,
